@@ -46,6 +46,8 @@ pub fn make_driver(
 pub struct Ledger {
     /// accepted versions per client, in acceptance order: (vid, parent)
     pub acc: Vec<Vec<(Uuid, Uuid)>>,
+    /// payload token of each accepted version (same indexing)
+    pub toks: Vec<Vec<i64>>,
 }
 
 pub struct Runner {
@@ -144,7 +146,7 @@ impl Runner {
             day: 0,
             storage: None,
             driver: None,
-            ledger: Ledger { acc: vec![vec![]; ncl] },
+            ledger: Ledger { acc: vec![vec![]; ncl], toks: vec![vec![]; ncl] },
             last: vec![],
             allow,
             allow_nums: job["allow"].as_array().map(|a| a.iter().filter_map(|x| x.as_i64()).collect()),
@@ -389,6 +391,8 @@ impl Runner {
                             if let Out::Ok { vid, .. } = &out {
                                 let a = self.namer.uuid(argn);
                                 self.ledger.acc[(cnum2 - 1).max(0) as usize].push((*vid, a));
+                                let t = rr_tok(&rr, &self.pay).unwrap_or(0);
+                                self.ledger.toks[(cnum2 - 1).max(0) as usize].push(t);
                             }
                             if let Out::Found { data, .. } | Out::Snap { data, .. } = &out {
                                 btok = self.pay.tok_of(data);
@@ -462,8 +466,26 @@ impl Runner {
             }
             "AddVersion" | "AddSnapshot" => {
                 let c = self.clients[ci];
-                let a = self.resolve(&s["arg"], ci);
+                // "replay": k = send again exactly the (parent, payload) of the k-th accepted version counted from the latest
+                let replay = s.get("replay").and_then(|x| x.as_u64()).and_then(|k| {
+                    let acc = &self.ledger.acc[ci];
+                    let toks = &self.ledger.toks[ci];
+                    if acc.is_empty() || toks.len() != acc.len() {
+                        None
+                    } else {
+                        let i = acc.len() - 1 - (k as usize).min(acc.len() - 1);
+                        self.pay.bytes_of(toks[i]).cloned().map(|b| (acc[i].1, toks[i], b))
+                    }
+                });
+                let a = match &replay {
+                    Some((p, _, _)) => *p,
+                    None => self.resolve(&s["arg"], ci),
+                };
                 let (tok, body) = match s.get("bytes").and_then(|b| b.as_str()) {
+                    _ if replay.is_some() => {
+                        let (_, t, b) = replay.clone().unwrap();
+                        (t, b)
+                    }
                     Some(hex) => {
                         let b = crate::unhex(hex);
                         (self.pay.intern(b.clone()), b)
@@ -530,6 +552,7 @@ impl Runner {
                         }
                     }
                     self.ledger.acc[ci].push((*vid, a));
+                    self.ledger.toks[ci].push(tok);
                 }
                 resp = out_to_resp(&out, &mut self.namer, &self.pay);
                 http = h;
@@ -839,7 +862,14 @@ pub fn big_payload(tok: i64, size: usize) -> Vec<u8> {
 
 /// Run one job; events are appended to `w`.  Returns a summary.
 pub fn run_job(job: &Value, scratch: &std::path::Path, w: &mut dyn Write) -> anyhow::Result<Value> {
-    let mut r = Runner::new(job, scratch)?;
+    let mut r = match Runner::new(job, scratch) {
+        Ok(r) => r,
+        Err(e) if job["start_may_fail"].as_bool() == Some(true) => {
+            // a configuration the server may legitimately refuse to start with (e.g. an address it cannot bind)
+            return Ok(json!({"id": job["id"], "run": job["run"], "steps": 0, "planned": 0, "div_at": -1, "start_failed": format!("{e:#}")}));
+        }
+        Err(e) => return Err(e),
+    };
     let mut n = 0usize;
     let mut div_at: i64 = -1;
     let ev = r.reset_event();
